@@ -112,6 +112,9 @@ func (s *Solver) declare(t *Term) {
 	if s.known[t] {
 		return
 	}
+	if len(s.known) > 300000 {
+		s.known = map[*Term]bool{} // only a cache: declared names are tracked in s.decl
+	}
 	s.known[t] = true
 	if t.Op == "var" {
 		if !s.decl[t.Name] {
